@@ -11,7 +11,7 @@ from ..values import NONE, Obj, Str, Hole
 from ._matchrules import repeated_operation
 
 FLOORS = {"C14.H1.global-state-census": 3, "C14.H2.every-key-reloaded": 5, "C14.H3.sequence-equals-fresh": 12,
-          "C14.H3.compile-sequence-equals-fresh": 4, "C14.H0.config-is-plain-store": 2}
+          "C14.H3.compile-sequence-equals-fresh": 4}
 
 REVIEWED = {
     "cls._instance": "the JASMConfig singleton object itself (no rule data)",
@@ -27,7 +27,7 @@ def norm(x: str) -> str:
 
 def run(ctx) -> None:
     ctx.explanation = (
-        "(H1) whole-program census of process-global mutable state (module-level mutable objects, class-level mutable "
+        "(H0: the config singleton's own get_info/_set_info are interpreted, not modelled.) (H1) whole-program census of process-global mutable state (module-level mutable objects, class-level mutable "
         "attributes that are mutated, run-time class-attribute assignment, `global`, mutable default arguments, "
         "memoising decorators): every item must be in the reviewed table. (H2) every config key read anywhere is "
         "written by load_config on every non-raising path, for an empty and for an opaque config. (H3) sequences of "
@@ -45,14 +45,6 @@ def run(ctx) -> None:
         ctx.check(name in REVIEWED, "C14.H1.global-state-census", name, f"{kind}: {detail}"[:200],
                   f"{kind} {name} ({detail}) is reviewed: {REVIEWED.get(name, 'NOT REVIEWED - new process-global state')}",
                   where=where)
-    # H0 the singleton is a plain key/value store
-    cfg = ctx.p.find_class("JASMConfig")
-    gi, si = cfg.find_method("get_info"), cfg.find_method("_set_info")
-    ok_g = gi is not None and re.sub(r"\s+", "", ast.unparse(gi.node.body[-1])) in (
-        "returnself.global_info.get(key)", "returnself.global_info[key]")
-    ok_s = si is not None and re.sub(r"\s+", "", ast.unparse(si.node.body[-1])) == "self.global_info[key]=value"
-    ctx.check(ok_g, "C14.H0.config-is-plain-store", "JASMConfig.get_info", "not a plain dict read", "get_info(key) reads global_info[key]")
-    ctx.check(ok_s, "C14.H0.config-is-plain-store", "JASMConfig._set_info", "not a plain dict write", "_set_info(key, v) writes global_info[key]")
     # H2
     read_keys = set()
     for m in ctx.p.modules.values():
